@@ -29,6 +29,8 @@ ASSUMPTIONS = ["exp/log/erf/lgamma of Lean Float vs NumPy/SciPy agree to 1e-9 (b
 UNPROVED = []
 CORRESPONDENCE_IS_PROPERTY = True
 SUITES, _cl = SU.load_all()
+from suites import fixtures as _FX  # noqa: E402
+RULE += "; " + _FX.RULE_NOTE
 
 # documented defaults (from the docstrings) are pinned: a changed default is a C04 matter
 DOCUMENTED_DEFAULTS = {
